@@ -13,8 +13,10 @@ use hydro_lang::prelude::*;
 use hydro_lang::sim::compiled::CompiledSim;
 use hydro_lang::sim::{SimReceiver, SimSender};
 
+#[cfg(stageleft_runtime)]
 pub type Kv = (u8, i32);
 
+#[cfg(stageleft_runtime)]
 /// What one tick handed to the slice, normalised across flows.
 #[derive(Clone, Debug, Default, PartialEq, Eq, PartialOrd, Ord)]
 pub struct Rec {
@@ -31,6 +33,7 @@ pub struct Rec {
     pub state_out: i64,
 }
 
+#[cfg(stageleft_runtime)]
 #[derive(Clone, Debug)]
 pub enum Step {
     /// send items to input port 0 / 1
@@ -39,6 +42,7 @@ pub enum Step {
     Await,
 }
 
+#[cfg(stageleft_runtime)]
 #[derive(Clone, Copy, Debug, PartialEq, Eq, PartialOrd, Ord)]
 pub enum FlowKind {
     /// batch of a totally ordered stream
@@ -58,6 +62,7 @@ pub enum FlowKind {
     /// top-level `assume_ordering` of an unordered stream (an observation, no tick)
     TopOrder,
 }
+#[cfg(stageleft_runtime)]
 impl FlowKind {
     pub const ALL: [FlowKind; 8] = [
         FlowKind::Total,
@@ -107,9 +112,12 @@ impl FlowKind {
     }
 }
 
+#[cfg(stageleft_runtime)]
 type Tx<T, O> = SimSender<T, O, ExactlyOnce>;
+#[cfg(stageleft_runtime)]
 type Rx<T> = SimReceiver<T, TotalOrder, ExactlyOnce>;
 
+#[cfg(stageleft_runtime)]
 enum Ports {
     Total(Tx<i32, TotalOrder>, Rx<Vec<i32>>),
     NoOrd(Tx<i32, NoOrder>, Rx<Vec<i32>>),
@@ -121,12 +129,14 @@ enum Ports {
     TopOrder(Tx<i32, NoOrder>, Rx<i32>),
 }
 
+#[cfg(stageleft_runtime)]
 pub struct Flow {
     pub kind: FlowKind,
     pub compiled: CompiledSim,
     ports: Ports,
 }
 
+#[cfg(stageleft_runtime)]
 pub fn build(kind: FlowKind) -> Flow {
     let mut flow = FlowBuilder::new();
     let node = flow.process::<()>();
@@ -202,7 +212,6 @@ pub fn build(kind: FlowKind) -> Flow {
             let (tx0, in0) = node.sim_input::<i32, TotalOrder, ExactlyOnce>();
             let (tx1, in1) = node.sim_input::<i32, TotalOrder, ExactlyOnce>();
             let counted = in1.count();
-            #[expect(unused_mut, reason = "`mut` is consumed by the `sliced!` macro")]
             let rx = sliced! {
                 let b = use::batch(in0, nondet!(/** corpus */));
                 let c = use::snapshot(counted, nondet!(/** corpus */));
@@ -260,6 +269,7 @@ pub fn build(kind: FlowKind) -> Flow {
     Flow { kind, compiled, ports }
 }
 
+#[cfg(stageleft_runtime)]
 /// Everything observed of one instance.
 #[derive(Clone, Debug)]
 pub struct Obs {
@@ -272,6 +282,7 @@ pub struct Obs {
     pub awaited: usize,
 }
 
+#[cfg(stageleft_runtime)]
 #[derive(Default)]
 struct Shared {
     recs: Vec<Rec>,
@@ -279,6 +290,7 @@ struct Shared {
     awaited: usize,
 }
 
+#[cfg(stageleft_runtime)]
 impl Flow {
     /// Does the flow owe at least one more record, given what was sent and received so far?
     fn owes(kind: FlowKind, sent: &[Vec<Kv>; 2], recs: &[Rec]) -> bool {
@@ -423,6 +435,7 @@ impl Flow {
     }
 }
 
+#[cfg(stageleft_runtime)]
 /// Seeded workload: <=6 uniquely numbered items per input port over <=3 keys, split into send
 /// steps with awaits in between.
 pub fn workload(kind: FlowKind, run_seed: u64) -> Vec<Step> {
@@ -455,6 +468,7 @@ pub fn workload(kind: FlowKind, run_seed: u64) -> Vec<Step> {
     steps
 }
 
+#[cfg(stageleft_runtime)]
 pub fn sent_per_port(steps: &[Step]) -> [Vec<Kv>; 2] {
     let mut s: [Vec<Kv>; 2] = Default::default();
     for st in steps {
@@ -465,6 +479,7 @@ pub fn sent_per_port(steps: &[Step]) -> [Vec<Kv>; 2] {
     s
 }
 
+#[cfg(stageleft_runtime)]
 pub fn per_key(v: &[Kv]) -> BTreeMap<u8, Vec<i32>> {
     let mut m: BTreeMap<u8, Vec<i32>> = BTreeMap::new();
     for (k, x) in v {
@@ -473,11 +488,13 @@ pub fn per_key(v: &[Kv]) -> BTreeMap<u8, Vec<i32>> {
     m
 }
 
+#[cfg(stageleft_runtime)]
 /// A corpus flow compiled on first use.
 pub struct LazyFlow {
     pub kind: FlowKind,
     cell: std::cell::OnceCell<Flow>,
 }
+#[cfg(stageleft_runtime)]
 impl LazyFlow {
     pub fn new(kind: FlowKind) -> Self {
         LazyFlow { kind, cell: std::cell::OnceCell::new() }
